@@ -7,6 +7,7 @@ pub mod ops;
 pub mod prng;
 pub mod report;
 pub mod seam;
+pub mod valgen;
 
 use std::collections::BTreeMap;
 
